@@ -466,8 +466,15 @@ def vt_fresh(c):
     return cmds, ropes, raws
 
 
-@REG.contract("dpapi_ng._rpc._verification.VerificationTrailer.pack", props=["C12"], inline=True)
+@REG.contract("dpapi_ng._rpc._verification.VerificationTrailer.pack", props=["C12"])
 def vt_pack(c):
+    if not c.verifying:
+        s_ = c.param("self")
+        if "packed" in s_.ghost:  # an abstract trailer (C13): its bytes are an opaque ghost value
+            c.returns(s_.ghost["packed"])
+            c.raises_only(set())
+            return
+        c.inline_instead()
     cmds, ropes, _ = vt_fresh(c)
     c.param("self", T.const(SObj(cls(c, "VerificationTrailer"), {"signature": SBytes(R.Rope.lit(VT_SIGNATURE)), "commands": cmds})))
     c.returns(c.rope(VT_SIGNATURE, *ropes))
@@ -530,14 +537,121 @@ def pdu_unpack_any(c):
     c.ghost_bound("copied", 2 * n + 64)
     L = lambda v: Z(c.len(v))  # noqa: E731
 
-    def opaque_list(I_, cur, s):
-        from pyvc.values import SList
+    annotate_pdu_loops(c, cost=True)
 
-        return SList(fresh_int("n_items"), lambda j: None)
+
+def _opaque_list(I_, cur, s):
+    from pyvc.values import SList
+
+    return SList(fresh_int("n_items"), lambda j: None)
+
+
+def annotate_pdu_loops(c, cost=False):
+    """Loop annotations for the list decoders reached from PDU.unpack on arbitrary bytes. With cost=True the
+    invariant is the potential argument (2*steps + remaining bytes never grows); otherwise it only states that the
+    view stays within the data (enough for partial-correctness contracts of callers)."""
+    L = lambda v: Z(c.len(v))  # noqa: E731
 
     def pot(s):
         e = s.at_entry
-        return [2 * Z(s.ticks) + L(s.view) <= 2 * Z(e.ticks) + L(e.view) + 0 * Z(s._i), Z(s.copied) + L(s.view) <= Z(e.copied) + L(e.view), L(s.view) <= L(e.view)]
+        base = [L(s.view) <= L(e.view)]
+        if cost:
+            base += [2 * Z(s.ticks) + L(s.view) <= 2 * Z(e.ticks) + L(e.view), Z(s.copied) + L(s.view) <= Z(e.copied) + L(e.view)]
+        return base
 
-    c.loop(0, target="dpapi_ng._rpc._bind.BindAck._unpack", invariant=pot, havoc={"results": opaque_list})
-    c.loop(0, target="dpapi_ng._rpc._bind.BindNak._unpack", invariant=pot, havoc={"versions": opaque_list})
+    c.loop(0, target="dpapi_ng._rpc._bind.BindAck._unpack", invariant=pot, havoc={"results": _opaque_list})
+    c.loop(0, target="dpapi_ng._rpc._bind.BindNak._unpack", invariant=pot, havoc={"versions": _opaque_list})
+    if not cost:
+        c.loop(0, target="dpapi_ng._rpc._bind.Bind._unpack", invariant=lambda s: [L(s.view) <= L(s.at_entry.view)], havoc={"contexts": _opaque_list})
+        c.loop(0, target="dpapi_ng._rpc._bind.ContextElement.unpack", invariant=lambda s: [L(s.view) <= L(s.at_entry.view)], havoc={"transfer_syntaxes": _opaque_list})
+
+
+# ================================================================================================ PDU.unpack summary (used by callers)
+PTYPE_CLASS = {0: "Request", 2: "Response", 3: "Fault", 11: "Bind", 12: "BindAck", 13: "BindNak", 14: "AlterContext", 15: "AlterContextResponse"}
+
+
+def _pdu_view(c, data):
+    """frag_len, auth_len, packet type and the body/trailer split that PDU.unpack applies to arbitrary bytes"""
+    rope = c.I.rope_of(data)
+    g = lambda a, b: R.to_int(c.ctx, R.py_slice(c.ctx, rope, a, b), "little")  # noqa: E731
+    return rope, g(2, 3), g(8, 10), g(10, 12)
+
+
+@REG.contract("dpapi_ng._rpc._pdu.PDU.unpack", props=["C12"])
+def pdu_unpack_summary(c):
+    """What a caller may rely on for ARBITRARY bytes: the class of the result is the one registered for the packet
+    type octet; a Response carries stub_data = data[24 : end of body] where the body ends at frag_len, or at
+    frag_len - auth_len - 8 when auth_len != 0, and has a security trailer exactly when auth_len != 0."""
+    class_param(c, "PDU")
+    data = c.param("data", T.bytes(kind="bytearray", max_len=0xFFFF))
+    rope, ptype, frag_len, auth_len = _pdu_view(c, data)
+    c.raises("ValueError", when=None)
+    c.raises("KeyError", when=None)
+    c.raises("IndexError", when=None)
+    c.raises_only({"ValueError", "KeyError", "IndexError"})
+    n = Z(c.len(data))
+
+    def body_end():
+        fl = z3.If(Z(frag_len) < n, Z(frag_len), n)
+        fl16 = z3.If(fl < 16, 16, fl)  # view[16:frag_len]
+        inner = fl16 - 16
+        cut = z3.If(Z(auth_len) != 0, z3.If(inner - (Z(auth_len) + 8) < 0, 0, inner - (Z(auth_len) + 8)), inner)
+        return 16 + cut
+
+    def stub_of(end):
+        return SBytes(R.py_slice(c.ctx, rope, 24, end))
+
+    if c.verifying:
+        annotate_pdu_loops(c)
+
+        def ok(r):
+            if not isinstance(r, SObj):
+                return False
+            conj = [c.Or(*[c.And(r.cls.name == name, Z(ptype) == k) for k, name in PTYPE_CLASS.items()])]
+            if r.cls.name == "Response":
+                conj.append(c.eq(r.fields["stub_data"], stub_of(body_end())))
+                conj.append((r.fields["sec_trailer"] is None) == (c.ctx.entails(Z(auth_len) == 0)))
+            return conj
+
+        c.ensures("class-by-packet-type-and-response-stub-region", ok)
+    else:
+        k = c.ctx.choose(len(PTYPE_CLASS), "pdu_class")
+        pt, name = list(PTYPE_CLASS.items())[k]
+        c.assume(Z(ptype) == pt)
+        hdr = SObj(cls(c, "PDUHeader"), {"version": fresh_int("v"), "version_minor": fresh_int("vm"), "packet_type": enum_val(c, "PacketType", pt),
+                                          "packet_flags": enum_val(c, "PacketFlags", fresh_int("flags")), "data_rep": None, "frag_len": frag_len, "auth_len": auth_len,
+                                          "call_id": fresh_int("call_id")})
+        if c.ctx.branch(Z(auth_len) != 0):
+            st = SObj(cls(c, "SecTrailer"), {"type": enum_val(c, "SecurityProvider", fresh_int("st_type")), "level": enum_val(c, "AuthenticationLevel", fresh_int("st_level")),
+                                              "pad_length": c.fresh(U8, "st_pad"), "context_id": c.fresh(U32, "st_ctx"), "auth_value": c.fresh(T.Bytes, "st_auth_value")})
+        else:
+            st = None
+        fields = {"header": hdr, "sec_trailer": None if name == "BindNak" else st}
+        if name == "Response":
+            fields.update({"alloc_hint": c.fresh(U32, "alloc_hint"), "context_id": c.fresh(U16, "context_id"), "cancel_count": c.fresh(U8, "cancel_count"),
+                           "stub_data": stub_of(body_end())})
+        elif name == "Fault":
+            fields.update({"alloc_hint": c.fresh(U32, "alloc_hint"), "context_id": c.fresh(U16, "context_id"), "cancel_count": c.fresh(U8, "cancel_count"),
+                           "status": c.fresh(U32, "status"), "flags": enum_val(c, "FaultFlags", c.fresh(U8, "fflags")), "stub_data": c.fresh(T.Bytes, "fault_stub")})
+        elif name == "BindNak":
+            fields.update({"reject_reason": c.fresh(U16, "reject_reason"), "versions": _opaque_list(c.I, None, None)})
+        elif name in ("BindAck", "AlterContextResponse"):
+            from pyvc.values import SList
+
+            nres = c.fresh(T.int(0, 255), "n_results")
+            res_cls = cls(c, "ContextResult")
+            tag = fresh_int("ack")
+
+            def res(j, tag=tag):
+                code = z3.Function("ACK_RESULT", z3.IntSort(), z3.IntSort(), z3.IntSort())(tag, Z(j))
+                c.assume(z3.And(code >= 0, code <= 3))
+                return SObj(res_cls, {"result": enum_val(c, "ContextResultCode", code), "reason": fresh_int("reason"), "syntax": None, "syntax_version": fresh_int("sv")})
+
+            fields.update({"max_xmit_frag": c.fresh(U16, "mx"), "max_recv_frag": c.fresh(U16, "mr"), "assoc_group": c.fresh(U32, "ag"), "sec_addr": c.fresh(T.Str, "sec_addr"),
+                           "results": SList(nres, res)})
+        elif name == "Request":
+            fields.update({"alloc_hint": c.fresh(U32, "alloc_hint"), "context_id": c.fresh(U16, "context_id"), "opnum": c.fresh(U16, "opnum"), "obj": None,
+                           "stub_data": c.fresh(T.Bytes, "req_stub")})
+        else:
+            fields.update({"max_xmit_frag": c.fresh(U16, "mx"), "max_recv_frag": c.fresh(U16, "mr"), "assoc_group": c.fresh(U32, "ag"), "contexts": _opaque_list(c.I, None, None)})
+        c.returns(SObj(cls(c, name), fields))
